@@ -19,11 +19,21 @@ CLAUSES = {
 }
 FUNCTIONS = ["BaseTaskPool.flush", "BaseTaskPool._pop_ended_meta_tasks", "BaseTaskPool._task_ending", "BaseTaskPool._get_running_task"]
 
-ALPHA = ("cancel", "rel", "fail", "cbrel", "flush", "flushF", "apply1", "nop")
+ALPHA = ("cancel", "rel", "fail", "cbrel", "flush", "flushF", "apply1", "cbcancel", "nop")
 NOP = len(ALPHA) - 1
 
 
 def tpl_flush(size, cb, n1, x2, a2, x3, a3, x4, a4, x5, a5, t, _twin=False):
+    return _run(size, cb, n1, [(NOP, 0), (x2, a2), (x3, a3), (x4, a4), (x5, a5)], t, 0, _twin)
+
+
+def tpl_flushc(x2, a2, x3, a3, x4, a4, _twin=False):
+    """Prologue: two tasks, both cancelled and sitting in their slow cancel callbacks; then three symbolic steps
+    (a callback may be released or itself be cancelled, flushes with either return_exceptions)."""
+    return _run(2, 3, 2, [(NOP, 0), (x2, a2), (x3, a3), (x4, a4)], 9, 1, _twin)
+
+
+def _run(size, cb, n1, steps, t, pro, _twin):
     w = World("c13.flush")
     code = 0
     try:
@@ -56,7 +66,12 @@ def tpl_flush(size, cb, n1, x2, a2, x3, a3, x4, a4, x5, a5, t, _twin=False):
                             w.fail(1303)
                 elif ret_exc:
                     w.fail(1304)
-                elif kind == "cancelled" or not any(exc is r.get("exc") for r in w.W):
+                elif kind == "cancelled":
+                    # flush(False) passes on the CancelledError of a gathered task that finished cancelled
+                    # (a CancelledError escaped one of its callbacks); it has then not returned and forgets nothing
+                    if not any(r["task"].done() and r["task"].cancelled() for r in w.W):
+                        w.fail(1308)
+                elif not any(exc is r.get("exc") for r in w.W):
                     w.fail(1308)
 
         def idle():
@@ -73,7 +88,12 @@ def tpl_flush(size, cb, n1, x2, a2, x3, a3, x4, a4, x5, a5, t, _twin=False):
         it.flush = flush
         try:
             it.apply(n1)
-            drive(w, it, ALPHA, [(NOP, 0), (x2, a2), (x3, a3), (x4, a4), (x5, a5)], t, idle)
+            if pro == 1:
+                w.settle()
+                it.cancel(0)
+                it.cancel(1)
+                w.settle()
+            drive(w, it, ALPHA, steps, t, idle)
         except Excluded as e:
             w.excluded = str(e)
         code = w.err
@@ -105,6 +125,16 @@ def families(tier):
     else:
         pre = base + ["x5 == %d" % NOP, "a5 == 0", "t >= 0", "cb == 3"]
         parts = parts_product(n1=(2, 3), x2=range(NOP), x3=range(NOP))
-    return [Family(name="flush", fn="tpl_flush", params=P, pre=pre, parts=parts,
+    PC = ["x2", "a2", "x3", "a3", "x4", "a4"]
+    if not thorough:
+        prec = ["x2 == 3 or x2 == 4 or x2 == 5 or x2 == 7", "0 <= a2 <= 1", "3 <= x3 <= 5 or x3 == 7 or x3 == 1", "0 <= a3 <= 1",
+                "x4 == 3 or x4 == 4 or x4 == %d" % NOP, "0 <= a4 <= 1"]
+        partsc = parts_product(x2=(3, 4, 5, 7))
+    else:
+        prec = ["0 <= x2 < %d" % NOP, "-1 <= a2 <= 2", "0 <= x3 < %d" % NOP, "-1 <= a3 <= 2", "0 <= x4 <= %d" % NOP, "-1 <= a4 <= 2"]
+        partsc = parts_product(x2=range(NOP), x3=range(NOP))
+    famc = Family(name="flushc", fn="tpl_flushc", params=PC, pre=prec, parts=partsc,
+                  twin_pre=["x2 == 3", "x3 == 3", "x4 == 4", "a3 == 1"], twin_args=[3, 0, 3, 1, 4, 0])
+    return [famc, Family(name="flush", fn="tpl_flush", params=P, pre=pre, parts=parts,
                    twin_pre=["cb == 3", "n1 == 2", "x2 == 1", "x3 == 3", "x4 == 4", "x5 == %d" % NOP],
                    twin_args=[2, 3, 2, 1, 0, 3, 0, 4, 0, NOP, 0, 5])]
